@@ -50,15 +50,19 @@ def Dec.withScaleRound (d : Dec) (ns : Int) (m : Mode) : Dec :=
 /-- `BigDecimal::round(n)` with the build-time default mode -/
 def Dec.round (cfg : Config) (d : Dec) (n : Int) : Dec := d.withScaleRound n cfg.mode
 
-/-- `BigDecimal::with_prec` as written (including its treatment of negative remainders) -/
+/-- `BigDecimal::with_prec`: ties-away-from-zero rounding of the magnitude of the remainder -/
 def Dec.withPrec (est : Nat → Nat) (d : Dec) (prec : Nat) : Dec :=
   if d.digits > prec then
-    let p : Int := (tenToTheUint (d.digits - prec) : Nat)
-    let q := d.int.tdiv p
-    let r := d.int.tmod p
-    -- `if p < 10 * &r { q += get_rounding_term(&r) }`
-    if p < 10 * r then ⟨q + getRoundingTerm est r.natAbs, d.scale - (d.digits - prec : Nat)⟩
-    else ⟨q, d.scale - (d.digits - prec : Nat)⟩
+    -- `let (mut q, r) = self.int_val.div_rem(&p); let r = r.abs();`
+    -- `if p < 10 * &r { q ±= get_rounding_term(&r) }`
+    if tenToTheUint (d.digits - prec) < 10 * (d.int.tmod (tenToTheUint (d.digits - prec) : Nat)).natAbs then
+      (if d.int < 0 then
+        ⟨d.int.tdiv (tenToTheUint (d.digits - prec) : Nat)
+          - getRoundingTerm est (d.int.tmod (tenToTheUint (d.digits - prec) : Nat)).natAbs, d.scale - (d.digits - prec : Nat)⟩
+      else
+        ⟨d.int.tdiv (tenToTheUint (d.digits - prec) : Nat)
+          + getRoundingTerm est (d.int.tmod (tenToTheUint (d.digits - prec) : Nat)).natAbs, d.scale - (d.digits - prec : Nat)⟩)
+    else ⟨d.int.tdiv (tenToTheUint (d.digits - prec) : Nat), d.scale - (d.digits - prec : Nat)⟩
   else if d.digits < prec then
     ⟨d.int * (tenToTheUint (prec - d.digits) : Nat), d.scale + (prec - d.digits : Nat)⟩
   else d
